@@ -35,7 +35,7 @@ func c17(c *Ctx) {
 		{fn: "rtp.(*AudioLevelExtension).Unmarshal", want: []int{1}, why: "one octet"},
 		{fn: "rtp.(*PlayoutDelayExtension).Unmarshal", want: []int{3}, why: "two 12-bit delays"},
 		{fn: "rtp.(*TransportCCExtension).Unmarshal", want: []int{2}, why: "16-bit sequence number"}})
-	r.Floor("BITS table rows checked", nb, 40)
+	r.Floor("BITS table rows checked", nb, 28)
 	r.Floor("decoded fields checked by RESET.R1", nf, 5)
 	_ = core.FuncName
 }
